@@ -104,13 +104,11 @@ def matchAfterMcp (cfg : Config) (tool : String) : Option String :=
 
 /-! ### parsing -/
 
-/-- `str.splitlines()` -/
+/-- `text.split("\n")` -/
 def splitLinesAux : List Char → List Char → List (List Char)
-  | [], cur => if cur.isEmpty then [] else [cur.reverse]
-  | '\r' :: '\n' :: t, cur => cur.reverse :: splitLinesAux t []
+  | [], cur => [cur.reverse]
   | c :: t, cur =>
-    if Generated.lineBreaks.contains c.toNat then cur.reverse :: splitLinesAux t []
-    else splitLinesAux t (c :: cur)
+    if c == '\n' then cur.reverse :: splitLinesAux t [] else splitLinesAux t (c :: cur)
 
 def splitLines (s : String) : List String := (splitLinesAux s.toList []).map String.ofList
 
